@@ -337,4 +337,167 @@ theorem Led_confirmPending (e : Env) (s : St) (prop : String) (C P : List Nat) (
       obtain ⟨h1, h2⟩ := hl.rows x idx u hu
       exact ⟨(hmem x).mpr h1, liveSlot_mono e C _ _ _ hsubC h2⟩
 
+/-- **a logged transaction that nobody cites is removed** — generic form: the new table agrees with the old one away from
+the keys of `t`, has the inputs of `t` back as cited, and no row with the id of `t` -/
+theorem Led_remove (e : Env) (U U' : List (Ver × UItem)) (C P : List Nat) (t : Nat) (hl : Led e U C P)
+    (ht : t ∈ C ++ P) (hnc : ∀ j ∈ C ++ P, ∀ r ∈ (e.tx j).ins, r.tx ≠ t)
+    (ha : ∀ k : Ver, k.1 ≠ t → k ∉ (e.tx t).ins.map (fun r => (r.tx, r.off)) → lookup U' k = lookup U k)
+    (hb : ∀ r ∈ (e.tx t).ins, lookup U' (r.tx, r.off) = some ⟨r.addr, r.amt, r.frozen⟩)
+    (hc : ∀ idx, lookup U' (t, idx) = none) :
+    Led e U' (C.filter (fun x => x != t)) (P.filter (fun x => x != t)) := by
+  have hmem : ∀ x, x ∈ C.filter (fun x => x != t) ++ P.filter (fun x => x != t) ↔ x ∈ C ++ P ∧ x ≠ t := by
+    intro x
+    rw [← List.filter_append]
+    simp only [List.mem_filter, bne_iff_ne, ne_eq]
+  have hlive : ∀ x idx, x ≠ t → (liveSlot e (C.filter (fun x => x != t)) x idx ↔ liveSlot e C x idx) := by
+    intro x idx hx
+    unfold liveSlot
+    simp only [List.mem_filter, bne_iff_ne, ne_eq, hx, not_false_eq_true, and_true]
+  refine ⟨?_, ?_, ?_, ?_, ?_, ?_, ?_, ?_, ?_, ?_⟩
+  · rw [← List.filter_append]; exact List.Nodup.sublist List.filter_sublist hl.nodupA
+  · intro j hj; exact hl.idEq j ((hmem j).mp hj).1
+  · intro j hj; exact hl.insNodup j ((hmem j).mp hj).1
+  · rw [← List.filter_append]; exact List.Pairwise.sublist List.filter_sublist hl.order
+  · intro j hj; exact hl.noSelf j ((hmem j).mp hj).1
+  · -- outs
+    intro x hx idx hlv
+    obtain ⟨hxA, hxt⟩ := (hmem x).mp hx
+    rcases hl.outs x hxA idx ((hlive x idx hxt).mp hlv) with ⟨u, hu, hamt⟩ | ⟨j, hj, r, hr, hrt, hro⟩
+    · left
+      refine ⟨u, ?_, hamt⟩
+      rw [ha (x, idx) hxt]
+      · exact hu
+      · intro hmm
+        obtain ⟨r, hr, he⟩ := List.mem_map.mp hmm
+        have := hl.insSpent t ht r hr
+        rw [he, hu] at this
+        cases this
+    · by_cases hjt : j = t
+      · left
+        rw [hjt] at hr
+        have := hb r hr
+        rw [hrt, hro] at this
+        refine ⟨_, this, ?_⟩
+        have hc3 := (hl.cites t ht r hr).2.2
+        rw [hrt, hro] at hc3
+        exact hc3.symm
+      · right
+        exact ⟨j, (hmem j).mpr ⟨hj, hjt⟩, r, hr, hrt, hro⟩
+  · -- insSpent
+    intro j hj r hr
+    obtain ⟨hjA, hjt⟩ := (hmem j).mp hj
+    rw [ha (r.tx, r.off) (hnc j hjA r hr)]
+    · exact hl.insSpent j hjA r hr
+    · intro hmm
+      obtain ⟨r', hr', he⟩ := List.mem_map.mp hmm
+      exact hl.disjoint t ht j hjA (fun e2 => hjt e2.symm) r' hr' r hr he
+  · intro a ha' b hb' hab
+    exact hl.disjoint a ((hmem a).mp ha').1 b ((hmem b).mp hb').1 hab
+  · -- cites
+    intro j hj r hr
+    obtain ⟨hjA, _⟩ := (hmem j).mp hj
+    obtain ⟨c1, c2, c3⟩ := hl.cites j hjA r hr
+    have hrt := hnc j hjA r hr
+    exact ⟨(hmem r.tx).mpr ⟨c1, hrt⟩, (hlive r.tx r.off hrt).mpr c2, c3⟩
+  · -- rows
+    intro x idx u hu
+    by_cases hxt : x = t
+    · rw [hxt, hc idx] at hu; cases hu
+    · by_cases hin : (x, idx) ∈ (e.tx t).ins.map (fun r => (r.tx, r.off))
+      · obtain ⟨r, hr, he⟩ := List.mem_map.mp hin
+        injection he with e1 e2
+        obtain ⟨c1, c2, _⟩ := hl.cites t ht r hr
+        rw [e1, e2] at c2
+        rw [e1] at c1
+        exact ⟨(hmem x).mpr ⟨c1, hxt⟩, (hlive x idx hxt).mpr c2⟩
+      · rw [ha (x, idx) hxt hin] at hu
+        obtain ⟨h1, h2⟩ := hl.rows x idx u hu
+        exact ⟨(hmem x).mpr ⟨h1, hxt⟩, (hlive x idx hxt).mpr h2⟩
+
+/-- **a pending transaction that nobody cites is undone** (pool eviction, pool roll-back) -/
+theorem Led_undoPending (e : Env) (s : St) (C P : List Nat) (t : Nat) (hl : Led e s.U C P) (ht : t ∈ P)
+    (hnc : ∀ j ∈ C ++ P, ∀ r ∈ (e.tx j).ins, r.tx ≠ t) :
+    Led e (undoTx e s (e.tx t)).U C (P.filter (fun x => x != t)) := by
+  have htA : t ∈ C ++ P := List.mem_append_right _ ht
+  have hid := hl.idEq t htA
+  have hself : ∀ r ∈ (e.tx t).ins, r.tx ≠ (e.tx t).id := by rw [hid]; exact hl.noSelf t htA
+  have htC : t ∉ C := fun h => (List.nodup_append.mp hl.nodupA).2.2 t h t ht rfl
+  have hCf : C.filter (fun x => x != t) = C := by
+    apply List.filter_eq_self.mpr
+    intro a ha
+    simp only [bne_iff_ne, ne_eq]
+    intro e2; exact htC (e2 ▸ ha)
+  have := Led_remove e s.U (undoTx e s (e.tx t)).U C P t hl htA hnc
+    (fun k hk hnot => undoTx_lookup_otherid e s (e.tx t) k (by rw [hid]; exact hk) hnot)
+    (fun r hr => undoTx_lookup_in e s (e.tx t) (hl.insNodup t htA) hself r hr)
+    (fun idx => by
+      have hk : (t, idx) = ((e.tx t).id, idx) := by rw [hid]
+      rw [hk]
+      cases hm : matSlot (e.tx t) idx
+      · rw [undoTx_lookup_nonmat e s (e.tx t) idx hself hm, ← hk]
+        cases hlk : lookup s.U (t, idx) with
+        | none => rfl
+        | some u =>
+          rcases (hl.rows t idx u hlk).2 with h | ⟨h, _⟩
+          · rw [h] at hm; cases hm
+          · exact absurd h htC
+      · exact undoTx_lookup_mat e s (e.tx t) idx hself hm)
+  rw [hCf] at this
+  exact this
+
+/-- **a confirmed transaction that nobody cites is undone** (`undoBlock`: the transaction, then its fee) -/
+theorem Led_undoConfirmed (e : Env) (s : St) (C P : List Nat) (t : Nat) (hl : Led e s.U C P) (ht : t ∈ C)
+    (hnc : ∀ j ∈ C ++ P, ∀ r ∈ (e.tx j).ins, r.tx ≠ t) :
+    Led e (undoPayFee (e.tx t) (e.tx t).outs 0 (undoTx e s (e.tx t))).U (C.filter (fun x => x != t)) P := by
+  have htA : t ∈ C ++ P := List.mem_append_left _ ht
+  have hid := hl.idEq t htA
+  have hself : ∀ r ∈ (e.tx t).ins, r.tx ≠ (e.tx t).id := by rw [hid]; exact hl.noSelf t htA
+  have htP : t ∉ P := fun h => (List.nodup_append.mp hl.nodupA).2.2 t ht t h rfl
+  have hPf : P.filter (fun x => x != t) = P := by
+    apply List.filter_eq_self.mpr
+    intro a ha
+    simp only [bne_iff_ne, ne_eq]
+    intro e2; exact htP (e2 ▸ ha)
+  have := Led_remove e s.U (undoPayFee (e.tx t) (e.tx t).outs 0 (undoTx e s (e.tx t))).U C P t hl htA hnc
+    (fun k hk hnot => by
+      rw [undoPayFee_lookup_otherid _ _ _ _ _ (by rw [hid]; exact hk)]
+      exact undoTx_lookup_otherid e s (e.tx t) k (by rw [hid]; exact hk) hnot)
+    (fun r hr => by
+      rw [undoPayFee_lookup_otherid _ _ _ _ _ (by simpa using hself r hr)]
+      exact undoTx_lookup_in e s (e.tx t) (hl.insNodup t htA) hself r hr)
+    (fun idx => by
+      have hk : (t, idx) = ((e.tx t).id, idx) := by rw [hid]
+      rw [hk]
+      cases hm : matSlot (e.tx t) idx
+      · cases hf : feeSlot (e.tx t) idx
+        · -- neither: the row was not there
+          have h1 : lookup (undoPayFee (e.tx t) (e.tx t).outs 0 (undoTx e s (e.tx t))).U ((e.tx t).id, idx) =
+              lookup (undoTx e s (e.tx t)).U ((e.tx t).id, idx) := by
+            rw [undoPayFee_lookup_idx0]
+            unfold feeSlot at hf
+            split
+            · rename_i o ho
+              simp only [ho] at hf
+              simp [hf]
+            · rfl
+          rw [h1, undoTx_lookup_nonmat e s (e.tx t) idx hself hm, ← hk]
+          cases hlk : lookup s.U (t, idx) with
+          | none => rfl
+          | some u =>
+            rcases (hl.rows t idx u hlk).2 with h | ⟨_, h⟩
+            · rw [h] at hm; cases hm
+            · rw [h] at hf; cases hf
+        · rw [undoPayFee_lookup_idx0]
+          unfold feeSlot at hf
+          split
+          · rename_i o ho
+            simp only [ho] at hf
+            simp [hf]
+          · rename_i hn
+            simp [hn] at hf
+      · apply undoPayFee_lookup_none
+        exact undoTx_lookup_mat e s (e.tx t) idx hself hm)
+  rw [hPf] at this
+  exact this
+
 end XV.Chain
